@@ -33,9 +33,10 @@ Record cfg := mk_cfg {
   f_delchild : bool;  (* fix: DeleteNodes of an unknown node deleted other nodes ... *)
   f_nsguard : bool;   (* fix: AddNodes panicked on a requested node id in an unregistered namespace *)
   f_selfref : bool;   (* fix: AddReferences panicked on a reference from a node to itself *)
-  f_dims : bool       (* fix: AddNodes panicked on variable attributes with null array dimensions *)
+  f_dims : bool;      (* fix: AddNodes panicked on variable attributes with null array dimensions *)
+  f_nsname : bool     (* fix: AddNodes rejected every browse name in a non-zero namespace *)
 }.
-Definition fixed_cfg : cfg := mk_cfg true true true true true true true true.
+Definition fixed_cfg : cfg := mk_cfg true true true true true true true true true.
 
 (* ---- request items -------------------------------------------------------------------- *)
 Record an_item := AN {
@@ -97,11 +98,14 @@ Definition valid_typedef (ns : list node) (class typedef : Z) : bool :=
   else if class =? 2 then negb (typedef =? 0) && match find_node ns typedef with Some n => n_class n =? 16 | None => false end
   else typedef =? 0.
 
-(* the duplicate browse name test: find_nodes_relative_path(parent, "/name") is Ok and non-empty *)
-Definition dup_name (s : st) (parent bname : Z) : bool :=
+(* the duplicate browse name test: find_nodes_relative_path(parent, [HierarchicalReferences and
+   subtypes, forward, target name = the browse name]) is Ok and non-empty.  The path element is
+   built directly from the qualified name, so the name's namespace and any reserved character of
+   the relative path text syntax in it are immaterial: a name is its (namespace, code). *)
+Definition dup_name (s : st) (parent bns bname : Z) : bool :=
   if node_exists (nodes s) parent then
     existsb (fun d => match find_node (nodes s) d with
-                      | Some n => (n_bns n =? 0) && (n_bname n =? bname)
+                      | Some n => (n_bns n =? bns) && (n_bname n =? bname)
                       | None => false end)
             (targets_of (refs s) parent HierarchicalReferences)
   else false.
@@ -135,10 +139,11 @@ Definition add_node (f : cfg) (nslen : Z) (can : bool) (s : st) (i : an_item) : 
   else if negb (is_class (a_class i)) then bad 3
   else if negb (a_req i =? 0) && node_exists (nodes s) (a_req i) then bad 4
   else if a_bname i <? 2 then bad 5
-  else if negb (a_bns i =? 0) then
-    (* "ns:name" is not a relative path; `.unwrap()` before the fix *)
+  else if negb (f_nsname f) && negb (a_bns i =? 0) then
+    (* before the path element was built directly, the name went through relative path text:
+       "ns:name" is not a relative path (BadBrowseNameInvalid; `.unwrap()` before the first fix) *)
     (if f_bname f then bad 5 else mk_res PANIC 0 s)
-  else if dup_name s (a_parent i) (a_bname i) then bad 6
+  else if dup_name s (a_parent i) (a_bns i) (a_bname i) then bad 6
   else if negb (is_reftype (a_reftype i)) then bad 7
   else
     let '(nid, c') :=
@@ -338,10 +343,10 @@ Definition parse_digest (l : list Z) : option (dg * list Z) :=
   end.
 
 (* the part of an item the property speaks about *)
-Inductive view := VAdd (parent psrv reftype req : Z) | VOther.
+Inductive view := VAdd (parent psrv reftype req bname : Z) | VOther.
 Definition views (q : request) : list view :=
   match q with
-  | RAddNodes l => map (fun i => VAdd (a_parent i) (a_parent_srv i) (a_reftype i) (a_req i)) l
+  | RAddNodes l => map (fun i => VAdd (a_parent i) (a_parent_srv i) (a_reftype i) (a_req i) (a_bname i)) l
   | RAddRefs l => map (fun _ => VOther) l
   | RDelNodes l => map (fun _ => VOther) l
   | RDelRefs l => map (fun _ => VOther) l
@@ -350,14 +355,16 @@ Definition views (q : request) : list view :=
 Definition mem (x : Z) (l : list Z) : bool := existsb (Z.eqb x) l.
 
 (* one item: [prev] = the address space before the item, [cur] = after it, when observed.
-   - a Bad status: the address space did not change, no id is returned;
+   - a Bad status: the address space did not change, no id is returned; and (beyond the letter of
+     the statement, after its title: the result describes what happened) BadBrowseNameInvalid is
+     only reported for a browse name that is null or empty;
    - AddNodes Good: the returned id is not null, is the requested one if one was requested, did
      not exist before (so a server-assigned id is fresh), exists afterwards, and the given
      parent (a node of this server) references it with the given reference type. *)
 Definition item_ok (v : view) (status id flag : Z) (prev cur : option dg) : bool :=
   if status =? 0 then
     match v with
-    | VAdd parent psrv reftype req =>
+    | VAdd parent psrv reftype req _ =>
         (* a parent on another server is not a node of this address space *)
         (psrv =? 0) && negb (id =? 0) && ((req =? 0) || (id =? req)) &&
         match prev, cur with
@@ -369,7 +376,10 @@ Definition item_ok (v : view) (status id flag : Z) (prev cur : option dg) : bool
     end
   else
     match prev with Some _ => negb (flag =? 1) | None => true end &&
-    match v with VAdd _ _ _ _ => id =? 0 | VOther => true end.
+    match v with
+    | VAdd _ _ _ _ bname => (id =? 0) && (negb (status =? 5) || (bname <? 2))
+    | VOther => true
+    end.
 
 (* the items of one request against the output; [last] = the last address space observed *)
 Fixpoint oracle_items (vs : list view) (prev : option dg) (last : dg) (out : list Z)
@@ -429,12 +439,15 @@ Definition valid (c : case) : Prop :=
 
 (* the code before each repair *)
 Module Legacy.
-  Definition no_bname := mk_cfg false true true true true true true true.
-  Definition no_alloc := mk_cfg true false true true true true true true.
-  Definition no_dir := mk_cfg true true false true true true true true.
-  Definition no_psrv := mk_cfg true true true false true true true true.
-  Definition no_delchild := mk_cfg true true true true false true true true.
-  Definition no_nsguard := mk_cfg true true true true true false true true.
-  Definition no_selfref := mk_cfg true true true true true true false true.
-  Definition no_dims := mk_cfg true true true true true true true false.
+  Definition no_bname := mk_cfg false true true true true true true true false. (* that code also predates f_nsname *)
+  Definition no_alloc := mk_cfg true false true true true true true true true.
+  Definition no_dir := mk_cfg true true false true true true true true true.
+  Definition no_psrv := mk_cfg true true true false true true true true true.
+  Definition no_delchild := mk_cfg true true true true false true true true true.
+  Definition no_nsguard := mk_cfg true true true true true false true true true.
+  Definition no_selfref := mk_cfg true true true true true true false true true.
+  Definition no_dims := mk_cfg true true true true true true true false true.
+  (* names in a non-zero namespace went through relative path text and were all rejected; only
+     ordinary names are modelled for this legacy code (reserved characters are not) *)
+  Definition no_nsname := mk_cfg true true true true true true true true false.
 End Legacy.
